@@ -19,6 +19,12 @@ impl<'a> LuaGen<'a> {
         if r.chance(1, 6) {
             names.push("table");
         }
+        if r.chance(1, 4) {
+            names.push("_");
+        }
+        if r.chance(1, 5) {
+            names.push("_u");
+        }
         LuaGen {
             r,
             names,
